@@ -377,6 +377,41 @@ def F26_icm_more_payouts_than_players():
         return f'calculate_icm([50, 30, 20], [60, 40]) = {e}'
 
 
+def F27_second_community_card():
+    """C10: nine-handed razz, nobody folds: the seventh-street community card is on no board (recorded finding)."""
+    s = FixedLimitRazz.create_state(ALL, True, 0, 1, 2, 4, 200, 9)
+    s.complete_bet_or_raise_to()
+    while s.actor_index is not None:
+        s.check_or_call()
+    dealt = [c for o in s.operations if type(o).__name__ == 'BoardDealing' for c in o.cards]
+    on_board = [c for b in range(s.board_count) for c in s.get_board_cards(b)]
+    if sorted(map(repr, dealt)) != sorted(map(repr, on_board)):
+        return f'community cards dealt {dealt}, on the board {on_board} (board_cards {s.board_cards})'
+
+
+def F28_partial_show_protocol_line():
+    """C17 (fixed in ab56a71): a partial show overwrote a known hole card in the protocol lines."""
+    autos = (A.ANTE_POSTING, A.BET_COLLECTION, A.BLIND_OR_STRADDLE_POSTING, A.CARD_BURNING,
+             A.RUNOUT_COUNT_SELECTION, A.HAND_KILLING, A.CHIPS_PUSHING, A.CHIPS_PULLING)
+    game = NoLimitTexasHoldem(autos, True, 0, (50, 100), 100, mode=Mode.CASH_GAME)
+    s = game(10000, 2)
+    s.deal_hole('AsKs')
+    s.deal_hole('QdQc')
+    s.check_or_call()
+    s.check_or_call()
+    for b in ('4c5c6h', '9s', 'Kd'):
+        s.deal_board(b)
+        s.check_or_call()
+        s.check_or_call()
+    s.show_or_muck_hole_cards('Ks')
+    s.show_or_muck_hole_cards()
+    hh = HandHistory.from_game_state(game, s)
+    line = hh.to_pluribus_protocol(7)
+    own = [m for d, m in hh.to_acpc_protocol(0, 7)][-1].strip()
+    if ':AsKs|QdQc/' not in line or ':AsKs|/' not in own:
+        return f'Pluribus {line!r}; seat 0 sees {own!r}'
+
+
 DEMOS = {k: v for k, v in globals().items() if k.startswith('F') and callable(v) and k[1:2].isdigit()}
 
 if __name__ == '__main__':
